@@ -1,18 +1,53 @@
 import Driver.Util
 import Driver.B64
+import Driver.Wire
+import Driver.Kern
+import Driver.Hash
+import Driver.Work
+import Driver.Timer
+import Driver.Gids
+import Driver.Path
+import Driver.Hkdf
+import Driver.Start
+import Driver.Cred
+import Driver.Retry
+import Driver.Sys
 /-
 Line-protocol driver for the executable models.  One operation per input line,
-exactly one output line per operation.  The first word selects the model.
-Stateful models keep their state in `St`.
+exactly one output line per operation.  The first word selects the model; each
+model owns `Driver/<Model>.lean` (`St`, `init`, `step`).
 -/
 namespace Driver
 
 structure St where
-  dummy : Unit := ()
+  wire : Wire.St := Wire.init
+  kern : Kern.St := Kern.init
+  hash : Hash.St := Hash.init
+  work : Work.St := Work.init
+  timer : Timer.St := Timer.init
+  gids : Gids.St := Gids.init
+  path : Path.St := Path.init
+  hkdf : Hkdf.St := Hkdf.init
+  start : Start.St := Start.init
+  cred : Cred.St := Cred.init
+  retry : Retry.St := Retry.init
+  sys : Sys.St := Sys.init
 
 def step (st : St) (line : String) : St × String :=
   match words line with
   | "b64" :: args => (st, B64.handle args)
+  | "wire" :: args => let (s, o) := Wire.step st.wire args; ({ st with wire := s }, o)
+  | "kern" :: args => let (s, o) := Kern.step st.kern args; ({ st with kern := s }, o)
+  | "hash" :: args => let (s, o) := Hash.step st.hash args; ({ st with hash := s }, o)
+  | "work" :: args => let (s, o) := Work.step st.work args; ({ st with work := s }, o)
+  | "timer" :: args => let (s, o) := Timer.step st.timer args; ({ st with timer := s }, o)
+  | "gids" :: args => let (s, o) := Gids.step st.gids args; ({ st with gids := s }, o)
+  | "path" :: args => let (s, o) := Path.step st.path args; ({ st with path := s }, o)
+  | "hkdf" :: args => let (s, o) := Hkdf.step st.hkdf args; ({ st with hkdf := s }, o)
+  | "start" :: args => let (s, o) := Start.step st.start args; ({ st with start := s }, o)
+  | "cred" :: args => let (s, o) := Cred.step st.cred args; ({ st with cred := s }, o)
+  | "retry" :: args => let (s, o) := Retry.step st.retry args; ({ st with retry := s }, o)
+  | "sys" :: args => let (s, o) := Sys.step st.sys args; ({ st with sys := s }, o)
   | _ => (st, "bad-op")
 
 partial def loop (h : IO.FS.Stream) (out : IO.FS.Stream) (st : St) : IO Unit := do
